@@ -434,6 +434,33 @@ func runCheck(id, tier string) (code int) {
 	defer func() {
 		if r := recover(); r != nil {
 			if u, ok := r.(Undecided); ok {
+				// a rule instance that already failed is a finding in its own right: it is reported even though the
+				// rest of the check could not be decided (a change that both breaks a rule and removes the anchors
+				// of another must not hide behind the second effect)
+				nbad := 0
+				for _, o := range c.Obs {
+					if !o.OK && !o.Info {
+						nbad++
+					}
+				}
+				if nbad > 0 && c.L != nil {
+					fmt.Fprintf(os.Stderr, "UNDECIDED %s (after %d violated obligations, reported below): %s\n", id, nbad, u.Msg)
+					if os.Getenv("AKVERIF_SUB") != "" {
+						for _, o := range c.Obs {
+							if !o.OK && !o.Info {
+								fmt.Printf("SUBKEY %s\n", o.Key())
+							}
+						}
+						fmt.Println("SUBSTATUS decided")
+						code = 0
+						return
+					}
+					c.NotDecided += "; NOT COMPLETED: " + u.Msg
+					if rc := finish(c, start); rc == 1 {
+						code = 1
+						return
+					}
+				}
 				if os.Getenv("AKVERIF_SUB") != "" {
 					fmt.Printf("SUBSTATUS undecided: %s\n", u.Msg)
 				}
